@@ -102,6 +102,9 @@ def _qplan(what, quick, thorough):
 
 
 PLAN = {
+    "C17": _qplan("the last application release of a queue / source / group / semaphore / data object racing with pending or running items, suspend-resume, a queue targeting it, "
+                  "notify, an item that re-submits, an item that itself drops the last reference",
+                  "k<=3 for the single-thread scenarios, k<=2 for the two-thread ones", "k<=4 / k<=3"),
     "C19": _qplan("one block object: submit (async / sync / group_async / direct call / dispatch_block_perform) racing cancel, wait (forever, 1 ms), notify and testcancel from 2-3 threads, "
                   "flags 0 / BARRIER on a concurrent queue / QoS flags",
                   "k<=2 for 2-thread scenarios on a serial queue, k<=1 with notify / 3 threads / concurrent queue", "k<=3 / k<=2 / k<=1"),
@@ -237,6 +240,10 @@ def tasks_for(pid, tier):
                     out += ds("apply", k, [v], ncpu=ncpu, jobs=4)
         out.sort(key=lambda t: (t["jobs"], t["variant"]))
         return out
+    if pid == "C17":
+        tiny = [0, 4, 6, 7, 9, 10, 11]
+        rest = [1, 2, 3, 5, 8]
+        return ds("life", 3 if q else 4, tiny, jobs=4) + ds("life", 2 if q else 3, rest, jobs=8)
     if pid == "C19":
         small = [0, 1, 4, 5, 7, 8, 10, 11, 12, 14, 18, 20, 21, 22]
         mid = [2, 3, 6, 9, 13, 15, 16, 19]
